@@ -368,13 +368,36 @@ func runC10(tier string, sum *props.SchedSummary) []vs.Result {
 		},
 	}
 	resF := vs.Explore(scF, bound, budget)
-	out := []vs.Result{res, resB, res2, res3, resF}
+	// the legal registration that registers nothing (size 0) next to a real registration and a decoder
+	scZ := vs.Scenario{
+		Name:  "registry: register size 0 || register size 2 || decode uplink (81 aa bb 02)",
+		Setup: func() { lorawan.VerifRegistryReset() },
+		Threads: func() []vs.Thread {
+			return []vs.Thread{
+				{Name: "Z1-register-size-0", Body: func() { vs.Observe(fmt.Sprint(lorawan.RegisterProprietaryMACCommand(true, 0x80, 0))) }},
+				{Name: "Z2-register-size-2", Body: func() { vs.Observe(fmt.Sprint(lorawan.RegisterProprietaryMACCommand(true, 0x81, 2))) }},
+				{Name: "Z3-decode-uplink", Body: func() { vs.Observe(decodeFOpts(true, []byte{0x81, 0xaa, 0xbb, 0x02})) }},
+			}
+		},
+		Check: func(x *vs.Execution) []vs.Problem {
+			var ps []vs.Problem
+			if a, b := x.Obs["Z1-register-size-0"], x.Obs["Z2-register-size-2"]; len(a) != 1 || a[0] != "<nil>" || len(b) != 1 || b[0] != "<nil>" {
+				ps = append(ps, vs.Problem{Key: "registry/register-result", What: fmt.Sprintf("registrations returned %q %q", a, b)})
+			}
+			if d := strings.Join(x.Obs["Z3-decode-uplink"], "|"); d != "81 aa bb 02" && d != "81{aabb} 02" {
+				ps = append(ps, vs.Problem{Key: "registry/decode-not-linearizable", What: fmt.Sprintf("decoding 81 aa bb 02 concurrently with the registrations gave %q", d)})
+			}
+			return ps
+		},
+	}
+	resZ := vs.Explore(scZ, bound, budget)
+	out := []vs.Result{res, resB, res2, res3, resF, resZ}
 	// every interleaving (no preemption bound) with state-key pruning, for the result oracles
 	allBudget := 30000
 	if tier == "thorough" {
 		allBudget = 2000000
 	}
-	for _, s := range []vs.Scenario{scA, scB, sc2, sc3, scF} {
+	for _, s := range []vs.Scenario{scA, scB, sc2, sc3, scF, scZ} {
 		s.Name += " [all interleavings]"
 		out = append(out, vs.ExploreAll(s, allBudget))
 	}
@@ -729,9 +752,7 @@ func freeRun(prop string, n int) {
 			for _, t := range c10Threads() {
 				bodies = append(bodies, t.Body)
 			}
-			for _, t := range c10Threads() {
-				bodies = append(bodies, t.Body)
-			}
+			bodies = append(bodies, func() { lorawan.RegisterProprietaryMACCommand(true, 0x80, 0) }, func() { lorawan.RegisterProprietaryMACCommand(false, 0x81, 0) })
 		case "C14":
 			for _, sh := range c14Scenarios() {
 				sh := sh
